@@ -72,7 +72,7 @@ def pass_circuits(seed, count, max_inputs=5, max_gates=12):
     for i in range(count):
         pool = pools[i % len(pools)]
         c = circgen.random_circuit(rnd, rnd.randint(1, max_inputs), rnd.randint(1, max_gates), pool=pool,
-                                   max_arity=rnd.choice([2, 3, 4]), n_outputs=rnd.randint(0 if i % 11 == 0 else 1, 3),
+                                   max_arity=rnd.choice([2, 3, 4]), n_outputs=rnd.randint(0 if i % 11 == 0 else 1, 4), dup_bias=0.3 if i % 2 else 0.0,
                                    shuffle_storage=bool(i % 3 == 0))
         out.append((f"seeded[{seed}:{i}]", c))
     return out
